@@ -4,3 +4,4 @@ prop=$1; f=$2; expr=$3
 cd /repo && sed -i "$expr" "$f" && git diff --stat | tail -1
 cd /verif && ./check $prop 2>&1 | tail -3
 git -C /repo checkout -- .
+/venv/bin/python /verif/tools/py2coq.py /repo /verif/coq/theories/gen >/dev/null
